@@ -130,7 +130,7 @@ R04B_COMPUTED = {
 
 @rule(
     "R04b",
-    ["C04"],
+    ["C04", "C01"],
     """GENERIC PASS-THROUGH ALLOW-LIST: `_projection_passthrough` hands a class to plain_column_projection, which prunes the
     frame without looking at the other operands. It may be True only on classes whose non-frame operands were
     confirmed column-agnostic; a class whose operands are keyed by column labels (dict of per-column values, list of
@@ -183,7 +183,7 @@ def _handles_projection(model, c, su):
 
 @rule(
     "R04c",
-    ["C04"],
+    ["C04", "C01"],
     """IMPLICIT KEY COLUMNS: a class that has a parameter naming columns its operation needs (by, subset, _other,
     partitioning_index, left_on / right_on, column, _columns, left_by / right_by) and whose projection rule
     (_simplify_up / _simplify_down handling Projection parents) prunes its frame must read that parameter in the rule
@@ -263,7 +263,7 @@ def r04f(ctx):
 
 @rule(
     "R04g",
-    ["C04", "C18"],
+    ["C04", "C18", "C07", "C01"],
     """ABSORBED SELECTION IS IN SOURCE ORDER: where a source absorbs a projection (substitute_parameters({'columns': X}) in the
     _simplify_up of BlockwiseIO / ReadParquet / ...), X must list the SOURCE's columns in source order - a
     comprehension iterating self.columns and filtering by the requested set - because readers such as read_csv return
